@@ -119,6 +119,9 @@ Definition energy_rounded (p : problem) (v : nat -> Z) : Z :=
   then ising_z (p_n p) (fun i j => round2 (p_mat p i j)) (fun i => round2 (p_h p i)) (round2 (p_const p)) v
   else qubo_z (p_n p) (fun i j => round2 (p_mat p i j)) (round2 (p_const p)) v.
 
+(* a multiple of 1/100 *)
+Definition hundredth (q : Q) : Prop := exists z : Z, (q == inject_Z z / 100)%Q.
+
 (* ================= correspondence, record level ================= *)
 Definition dense_of (m : nat) (M : nat -> nat -> Z) : list (list Z) :=
   map (fun i => map (fun j => M i j) (seq 0 m)) (seq 0 m).
@@ -348,6 +351,25 @@ Definition load_text (cc : ascii) (lines : list string) : result loaded :=
 
 (* load_ising_matrix uses '#', load_qubo_matrix 'c' *)
 Definition comment_char (ising : bool) : ascii := if ising then "#"%char else "c"%char.
+
+(* ---------- character classes and the raw records, used in the statements ---------- *)
+(* every character of s satisfies P *)
+Fixpoint sall (P : ascii -> bool) (s : string) : bool :=
+  match s with EmptyString => true | String c s' => P c && sall P s' end.
+
+Definition digitc (c : ascii) : bool := let k := nat_of_ascii c in ((48 <=? k) && (k <=? 57))%nat.
+Definition not_ws (c : ascii) : bool := negb (is_ws c).
+Definition not_char (x : ascii) (c : ascii) : bool := negb (Ascii.eqb c x).
+
+(* the (row, col, exact value) triples export walks through: diagonal loop, then off-diagonal loop *)
+Definition raw := (nat * nat * Q)%type.
+Definition raw_diag (p : problem) : list raw :=
+  flat_map (fun i => if is_zero (dvec p i) then [] else [(i, i, dvec p i)]) (seq 0 (p_n p)).
+Definition raw_off (p : problem) : list raw :=
+  flat_map (fun t => match t with (r, c, v) => if (r =? c)%nat then [] else [(r, c, v)] end)
+           (find_entries (p_n p) (p_mat p)).
+Definition raw_line (t : raw) : string := match t with (i, j, q) => record_line i j q end.
+Definition raw_entry (t : raw) : entry := match t with (i, j, q) => (i, j, round2 q) end.
 
 (* ---------- bytes ---------- *)
 Definition nl : ascii := "010"%char.
